@@ -516,6 +516,14 @@ def scenario(c, W, exe_lines, spec, tag, stats):
     for (gi, gj, gk) in images(spec):
         img_of.setdefault(tabhex[(gi + 1) * 9 + (gj + 1) * 3 + (gk + 1)], (gi, gj, gk))
 
+    # ---- max_radius0/1 contract: when every radius was handed to reb_simulation_add (nothing assigned later,
+    #      no merger yet) they must bound the largest / second largest radius — the tree pruning relies on it
+    if not spec.get("r_after_add") and A["N"] == len(spec["parts"]) + nvar and not h_holds(stateR, A["maxr"]):
+        rs = sorted((p[8] for p in stateR), reverse=True)
+        c.violation("max-radius-bookkeeping", "max_radius0/1 = %r do not bound the two largest radii %r although all radii were given to reb_simulation_add"
+                    % (list(A["maxr"]), rs[:2]), dict(spec=spec))
+    stats["maxr_checked"] = stats.get("maxr_checked", 0) + 1
+
     # ---- search oracle on the real code (does not use the model)
     line = col in ("line", "linetree")
     orc = oracle_pairs(spec, stateR, tab, A["dtl"], line) if spec["integrator"] == "none" and spec["boundary"] != "shear" else None
@@ -539,8 +547,8 @@ def scenario(c, W, exe_lines, spec, tag, stats):
                     what = "%s search: pair (%d,%d) image %s overlaps%s but is not handed to the resolver" % (
                         col, i, j, im, "" if line else " while approaching")
                     key_f = "missed-pair:" + col
-                    if col == "tree" and not h_holds(stateA, A["maxr"]):
-                        key_f = K_F8
+                    if col == "tree" and spec.get("r_after_add") and not h_holds(stateA, A["maxr"]):
+                        key_f = K_F8        # the known class: radii assigned after reb_simulation_add
                     if col == "linetree":
                         # two independent causes: with dt<0 the drift terms of the pruning radius are negative
                         key_f = K_F18 if A["dtl"] >= 0 else K_LTNEG
@@ -607,7 +615,7 @@ def scenario(c, W, exe_lines, spec, tag, stats):
                 if im is not None:
                     mirror = (b, a, tabhex[(-im[0] + 1) * 9 + (-im[1] + 1) * 3 + (-im[2] + 1)])
                 if mirror is None or mirror not in rset:
-                    if col == "tree" and h_holds(stateA, A["maxr"]) and spec["boundary"] != "shear":
+                    if col == "tree" and not spec.get("r_after_add") and spec["boundary"] != "shear":
                         c.corr_break("tree search misses pair (%d,%d) of the model's direct search although max_radius bounds hold (%s)" % (a, b, tag),
                                      dict(spec=spec, pair=[a, b]))
                         stats["tie_fail"] += 1
@@ -647,7 +655,7 @@ def scenario(c, W, exe_lines, spec, tag, stats):
             c.violation(K_F19, "merging two massless particles gives NaN coordinates (1/(m1+m2))", dict(spec=spec))
         stats["massless_merges"] += 1
     else:
-        check_accounting(c, spec, stateA, B, callsB, kind, path, stats)
+        check_accounting(c, spec, stateA, B, callsB, kind, path, stats, reported)
         if kind == "merge":
             check_merge(c, spec, stateA, B, path, stats)
     if kind == "hs":
@@ -701,9 +709,24 @@ def scenario(c, W, exe_lines, spec, tag, stats):
     return checks, chk2_line, chk2
 
 
-def check_accounting(c, spec, stateA, B, callsB, kind, path, stats):
+def check_accounting(c, spec, stateA, B, callsB, kind, path, stats, reported=None):
     """nothing lost, duplicated or resolved after removal: hash bookkeeping on the real code"""
     ids0 = [p[0] for p in stateA]
+    if reported is not None and not spec.get("nvar") and path != "sorted+tree":
+        # every call must be one of the pairs the search found (same two identities, same ghost box), each used once:
+        # a stale index after a removal shows up as a pair that was never found
+        found = {}
+        for (p1, p2, gh) in reported:
+            k = (ids0[p1], ids0[p2], gh)
+            found[k] = found.get(k, 0) + 1
+        for (p1, p2, g, ha, hb, out) in callsB:
+            k = (ha, hb, g)
+            if found.get(k, 0) <= 0:
+                c.violation("resolved-pair-not-found:" + path, "resolver called with particles (%d,%d) — not a pair the search found in this step (or found once, "
+                            "resolved twice): pending entry points at the wrong particles after a removal [%s]" % (ha, hb, path),
+                            dict(spec=spec, res=kind, calls=[list(map(str, x)) for x in callsB[:10]]))
+                return
+            found[k] -= 1
     alive = set(ids0)
     removed = []
     if spec.get("nvar"):
